@@ -115,7 +115,9 @@ def _run_one(args):
         _t, mod, mkind, mdesc, mord = payload
         fam2 = ("unwith", "unfinally", "dropfinally", "swapstmt", "exc_narrow", "exc_widen", "exc_other", "dropkw", "droparg")
         fam3 = ("wrongvar", "wrongfield")
-        new_src = (mutants.mutate3 if mkind in fam3 else mutants.mutate2 if mkind in fam2 else mutants.mutate)(sources[mod], kind=mkind, desc=mdesc, ordinal=mord)
+        fam4 = ("sibling", "builtin", "strtypo", "unnot", "ifexp", "augop", "binop", "excclass", "dropelse", "unslice", "default")
+        new_src = (mutants.mutate4 if mkind in fam4 else mutants.mutate3 if mkind in fam3 else mutants.mutate2 if mkind in fam2 else
+                   mutants.mutate)(sources[mod], kind=mkind, desc=mdesc, ordinal=mord)
         if new_src is None:
             return (vid, kind, "skipped", "mutation site absent in %s" % mod)
         src = dict(sources)
